@@ -87,6 +87,8 @@ static void* mk(M& m, unsigned n)
 // everything a set shows: size, empty, max_size, (full), iteration order; plus the invariant itself
 static void chk(void* p, M const& m)
 {
+    // stays on in the C02 (UB / memory-only) build: a size() beyond the capacity makes every later begin()..end() walk leave the object
+    (vf_assert)(k_size(p) <= CAP, "size() <= max_size()");
     vf_assert(k_size(p) == m.n, "size() == std::set");
     vf_assert(k_empty(p) == (m.n == 0), "empty() == (size() == 0)");
     vf_assert(k_max_size(p) == CAP, "max_size() is the capacity");
